@@ -179,6 +179,15 @@ impl Path {
 
 /// `None` = path not applicable (the generic DID parser refused the string beforehand).
 fn construct(path: Path, s: &str) -> Result<Option<Result<IotaDID, String>>, PanicRec> {
+  if path == Path::TryFromBase {
+    // `BaseDIDUrl::parse` is the third-party parser called directly by the harness, not through the
+    // library under test: if it refuses or panics here, the path simply cannot be taken.
+    let b = match catch(|| BaseDIDUrl::parse(s)) {
+      Ok(Ok(b)) => b,
+      _ => return Ok(None),
+    };
+    return catch(|| Some(<IotaDID as TryFrom<BaseDIDUrl>>::try_from(b).map_err(|e| e.to_string())));
+  }
   catch(|| match path {
     Path::Parse => Some(IotaDID::parse(s).map_err(|e| e.to_string())),
     Path::FromStr => Some(IotaDID::from_str(s).map_err(|e| e.to_string())),
@@ -188,9 +197,7 @@ fn construct(path: Path, s: &str) -> Result<Option<Result<IotaDID, String>>, Pan
       .ok()
       .map(|c| <IotaDID as TryFrom<CoreDID>>::try_from(c).map_err(|e| e.to_string())),
     Path::TryFromCoreFn => CoreDID::parse(s).ok().map(|c| IotaDID::try_from_core(c).map_err(|e| e.to_string())),
-    Path::TryFromBase => BaseDIDUrl::parse(s)
-      .ok()
-      .map(|b| <IotaDID as TryFrom<BaseDIDUrl>>::try_from(b).map_err(|e| e.to_string())),
+    Path::TryFromBase => unreachable!(),
     Path::Serde => {
       let j = serde_json::to_string(s).expect("json string");
       Some(IotaDID::from_json(&j).map_err(|e| e.to_string()))
@@ -273,14 +280,16 @@ impl Ctx {
         v.tag_str().to_string(),
         v.is_placeholder(),
         v.to_string(),
-        String::from(v.clone()),
-        v.clone().into_string(),
+        // NOT `String::from(v.clone())` / `v.clone().into_string()`: on the pinned tree these two call each
+        // other for ever (iota_did.rs `From<IotaDID> for String` -> `DID::into_string` -> `Into<String>`),
+        // which is neither a panic nor a verdict a monitor can wait for; reported separately.
+        String::from(CoreDID::from(v.clone())),
         format!("{:?}", v),
       )
     });
     match acc {
       Err(p) => self.panic_viol("accessor", &p, case(json!({"held":s}))),
-      Ok((scheme, method, method_id, authority, net, tag, is_ph, disp, into_s, into_s2, dbg)) => {
+      Ok((scheme, method, method_id, authority, net, tag, is_ph, disp, into_s, dbg)) => {
         let want_tag = format!("0x{}", hex_lower(&m.tag));
         let mut bad: Vec<String> = Vec::new();
         if scheme != "did" {
@@ -304,8 +313,8 @@ impl Ctx {
         if is_ph != (m.tag == [0u8; 32]) {
           bad.push(format!("is_placeholder={}", is_ph));
         }
-        if disp != s || into_s != s || into_s2 != s {
-          bad.push(format!("to_string/into={:?}/{:?}/{:?}", disp, into_s, into_s2));
+        if disp != s || into_s != s {
+          bad.push(format!("to_string/into={:?}/{:?}", disp, into_s));
         }
         if !dbg.contains(&s) {
           bad.push(format!("debug={:?}", dbg));
@@ -375,7 +384,9 @@ impl Ctx {
       // exact lowercase spelling (whether they fold or refuse other case is their latitude)
       let must_accept = expected.is_some() && (group == "parse" || all_lower);
       match construct(path, s) {
-        Err(p) => self.panic_viol(group, &p, json!({"path":path.name(),"input":s})),
+        // one signature whatever the path: the string paths run the generic parser inside, the conversion
+        // paths in the preparatory step, so the same root cause would otherwise be reported twice
+        Err(p) => self.panic_viol("construct", &p, json!({"path":path.name(),"input":s})),
         Ok(None) => {
           self.rep.inc("generic_parser_refused");
           if must_accept {
@@ -410,7 +421,7 @@ impl Ctx {
             self.rep.inc("accepted_outside_grammar");
           }
           self.rep.distinct("nontrivial", &format!("acc|{}|{}|{}", path.name(), class, expected.is_some()));
-          if self.rep.want_sample() && path == Path::Parse && s.bytes().any(|c| c.is_ascii_uppercase()) {
+          if self.rep.want_sample() && path == Path::Parse && expected.is_some() && s.bytes().any(|c| c.is_ascii_uppercase()) && class.contains('m') {
             self.rep.sample(json!({"path":path.name(),"input":s,"value":v.to_string()}));
           }
           self.check_value(path.name(), group, s, &v, expected.as_ref());
@@ -918,7 +929,7 @@ fn main() {
   grid(&mut cx, &args, stride, &mut rng);
 
   // ---- (a) random families
-  let n_fam = sc(if args.thorough { 160_000 } else { 4_000 });
+  let n_fam = sc(if args.thorough { 1_600_000 } else { 32_000 });
   for _ in 0..(n_fam / nsh).max(1) {
     cx.rep.inc("families");
     family(&mut cx, &mut rng);
@@ -951,7 +962,7 @@ fn main() {
     cx.close_family(&mut rng);
   }
   // 10^4 random (tag, network) pairs, valid and invalid names
-  let n_pairs = sc(if args.thorough { 200_000 } else { 10_000 });
+  let n_pairs = sc(if args.thorough { 1_000_000 } else { 40_000 });
   for _ in 0..(n_pairs / nsh).max(1) {
     let tag = random_tag(&mut rng);
     let name: String = if rng.chance(2, 3) {
